@@ -198,3 +198,21 @@ PROPS["C04"] = simple(
                "nothing at all may be sent for non-https addresses. Sampled.",
     level_note="Trusted: the simulator's byte log and the grammar in harness/verifchk/c04. A raw space or non-ASCII byte inside the target (Go keeps RawQuery verbatim) adds no line, header or request; it is counted (raw_sp_in_target), not flagged.",
 )
+
+PROPS["C05"] = simple(
+    "verifchk/c05", "TestVerifC05", "fault_enumeration",
+    "corpus of 12 response chains (plain, minimal, long headers, LF-only, ld+json, nested and big bodies, two Content-Types, 1- and 2-hop redirect chains incl. a relative Location; 150..1100 "
+    "bytes each): EVERY cut point k in [0, len+8] x close style {close_notify, FIN, RST} at EVERY hop (thorough; quick: 4 chains, every 3rd byte), through client.FetchURL and pub.New; "
+    "stalls and 1-byte/300 ms trickles at the stages start / mid status line / after status line / mid header / after headers / mid body / before the last brace, a silent peer after the "
+    "handshake and a peer that never completes the handshake, at every hop of 2 (quick) / 3 chains; refused port, non-TLS peer, binary garbage, 1 MB line, 1 MB header, truncated responses. "
+    "timeout_seconds = 1. Non-trivial: every fault case; distinct by construction (enumeration).",
+    config=dict(preload=5, timeout=1, cache=128),
+    shards=dict(quick=8, thorough=16),
+    floor=dict(evaluations=1000, distinct=1000, errors_seen=800, legit_successes=40, stall_and_garbage_cases=40),
+    timeout=dict(quick=600, thorough=2400),
+    technique="runtime monitor with fault injection by the peer: exhaustive cut points x close styles x hops, stall/trickle stages, stopwatch and hang watchdog",
+    level_text="The simulator injects the fault; the monitor decides from the fault's position alone whether a success is legitimate (only if the cut lies at or after the end of the Location line "
+               "of a redirect / the closing brace of the final object) and measures every fetch: it must end in an error (an error item through pub.New) within hops x (3T+2 s) and must be over "
+               "after hops x (10T+5 s), otherwise it is reported as a hang. Cut points are enumerated exhaustively in the thorough tier.",
+    level_note="Wall-clock decides because timeliness is the property; T = 1 s, bounds are 5x / 15x T per hop and stall cases run 16 at a time (they sleep). Trusted: the simulator's fault plans.",
+)
